@@ -5,6 +5,7 @@
 // every scalar is symbolic; the reference interpretation of DESIGN.md appendix A.2 is evaluated fork-free.
 //verif:pkg revocation/internal/crl
 //verif:harness H_C10_entries
+//verif:harness H_C10_entries_long thorough-only
 //verif:stub encoding/asn1.UnmarshalWithParams -> stubInvalidityDate
 package crl
 
@@ -74,9 +75,16 @@ func stubInvalidityDate(b []byte, val any, params string) ([]byte, error) {
 	return nil, nil
 }
 
-func H_C10_entries() {
-	total := rt.Bound("entries_total_max", 2, 3)
-	maxExt := rt.Bound("extensions_per_entry_max", 2, 2)
+// up to 2 entries (base + delta together) with up to 2 extensions each
+func H_C10_entries() { entriesHarness(rt.Bound("entries_total_max", 2, 2), rt.Bound("extensions_per_entry_max", 2, 2)) }
+
+// thorough tier: up to 3 entries with at most 1 extension each (3 entries x 2 extensions is ~6*10^5 paths of ~50 ms:
+// measured, not registered)
+func H_C10_entries_long() {
+	entriesHarness(rt.Bound("long_entries_total_max", 3, 3), rt.Bound("long_extensions_per_entry_max", 1, 1))
+}
+
+func entriesHarness(total, maxExt int) {
 	cert := &x509.Certificate{SerialNumber: rt.Big("cert.serial")}
 	var all []entSpec
 	nb := rt.Choose("nb", total+1)
